@@ -12,6 +12,71 @@ CLAIMED = {
           "Every reachable order-tracking state for 2-3 concurrent client order ids (all 10 exchange-consistent fill timelines per id) is enumerated to fixpoint, on the Orders table directly and through EngineState::update_from_account / the in-flight recorder over 3 instruments on 2 exchanges; every transition executes the real code and is compared with the allowed-successor set the statement gives for (tracked state, input); all inputs (duplicates, stale, out-of-order, full snapshots) are offered in every state.",
           "Unique client order ids; exchange reports of one order follow a timeline with non-decreasing fill level (late/duplicate/out-of-order delivery unrestricted); timestamps in {1,2,3}, fill levels in {0, half, full}.",
           "DESIGN.md §3 C01"),
+  "C03": ("model_checking", "E-BFS",
+          "depth-bounded explicit-state BFS over the real Engine::process with scripted strategy/risk/links",
+          "Every engine event history up to the tier's depth over (market/account items, trading-state toggles, the four commands, shutdown) x strategy output menu x risk verdict x per-step link fault mode (healthy / closed / missing / unhealthy / out-of-range index) is executed through the real Engine::process; after every tick: sent => delivered exactly once on the named link and in flight; failed => error class per link kind, no delivery, no mark, fatal => terminal; refused => reported, not delivered, no mark; disabled => nothing strategy-generated is issued while commands and state updates still happen (differential against an enabled idle engine); enabling event generates.",
+          "2-3 exchanges, at most 2-3 simultaneously tracked orders from an id pool, history depth 4 (quick) / 4-6 (thorough); strategy/risk are environment menus; reconnect notices and balance snapshots are not in this alphabet (C14/C09 cover them).",
+          "DESIGN.md §3 C03"),
+  "C04": ("exploration", "E-SEQ",
+          "exhaustive configuration sweep of index<->name translation + manual-poll ExecutionManager runs",
+          "For every insertion order of every subset (<=5 quick / <=8 thorough) of an 8-definition menu over 3 exchanges with shared asset names: every exchange's ExecutionInstrumentMap x every global index (own, foreign, out of range) and every pooled name; AccountEventIndexer outbound and all inbound event kinds; the request a recording ExecutionClient receives behind the real ExecutionManager::run (paused runtime, manual polling); account stream indexing; application through EngineState::update_from_account. Ground truth is computed from the definitions.",
+          "One 8-definition menu over BinanceSpot/Kraken/Okx; instrument internal names unique; an exchange names an asset one way; manager layer uses immediate replies only (timeouts are C07).",
+          "DESIGN.md §3 C04"),
+  "C05": ("model_checking", "E-BFS",
+          "explicit-state BFS to fixpoint over the real OrderBook::update + exhaustive OrderBookL2Manager delivery sequences",
+          "Every reachable book over 3-4 prices per side and amounts {0,5,7} is enumerated to fixpoint; every transition clones the real OrderBook and applies one snapshot/update event built from an unsorted level list (repeated prices, zero amounts, deletes of absent levels, several decimal scales); levels, strict ordering, sequence, mid / volume-weighted mid price and depth-limited snapshots are compared with two price->amount maps fed the list in order. A second layer drives the real OrderBookL2Manager::run (manual polling) over all delivery sequences <=4/5 for two instruments; a third sweeps long updates (2..40/100 levels) with one price listed twice at every pair of positions.",
+          "Snapshots are well-formed (distinct prices, positive amounts); time_engine not judged; both volume weightings of the weighted mid price accepted.",
+          "DESIGN.md §3 C05"),
+  "C06": ("exploration", "E-SEQ",
+          "bounded-exhaustive delivery sequences through the real Binance spot/futures L2 transformers against a venue-rule monitor",
+          "For simulated venue evolutions (5-6 atomic changes, every composition into updates, every snapshot point, two instruments on one connection, consecutive and stride-2 ids): every delivery sequence of length <=6 (quick) / <=7 (thorough) of the resulting updates (drop, duplicate, swap, replay, early/late start) goes through the real transformers obtained from ExchangeTransformer::init (venue JSON through the real deserialisers), every Ok event is applied to a real OrderBook, the connection stops at the first terminal error; the admitted updates must form the published chain, the local book must equal the venue book at its reported sequence, every break must be a terminal error, in-order delivery after older messages must never error.",
+          "Three fixed venue scripts; the buffering/ordering inside ExchangeWsStream::init (needs a live socket) is not exercised.",
+          "DESIGN.md §3 C06"),
+  "C07": ("exploration", "E-ENV",
+          "exhaustive schedule enumeration of the real ExecutionManager::run under virtual time (manual polling, scripted client)",
+          "All schedules of hand-over / answer (Ok, Err, fully filled) / clock-advance choices for batches of up to 3 (quick) / 4 (thorough, <=4 deviations) open and cancel requests with answers before, exactly at and after the timeout or never, in every arrival order, ended by shutdown or channel close; after a +2T horizon every accepted request must have exactly one answer of the class the statement prescribes (either at the exact deadline), correctly attributed; no event for unrequested ids.",
+          "select!'s per-iteration random start branch is not enumerated (it can only permute the order of simultaneously ready branches; the oracle ignores order); instants from a fixed grid around T; n=4 bounded to 4 deviations.",
+          "DESIGN.md §3 C07"),
+  "C08": ("exploration", "E-SEQ",
+          "bounded-exhaustive request sequences on the real MockExchange + schedule enumeration through MockExecution/MockExchange::run",
+          "All sequences of <=3 (quick) / <=4 (thorough) order requests (side x price x quantity x 3 asset-sharing instruments, limit and unknown-instrument orders) against 54/128 balance-fee configurations on MockExchange::open_order with the ledger read back after every step; plus all operation/latency schedules of up to 3/4 client operations through the real MockExecution client and MockExchange::run on a paused runtime (responses, notifications, queries) against a ledger model written from the statement.",
+          "Market orders only are accepted by the mock; the ledger model follows the statement (spent asset debited, nothing else changes); ids need only be fresh and increasing.",
+          "DESIGN.md §3 C08"),
+  "C11": ("exploration", "E-SEQ",
+          "exhaustive enumeration of instrument multisets x insertion orders through the real index builder and derived tables",
+          "Every sequence with repetition of length <=4 (quick) / <=6 (thorough) and every permutation of larger subsets of an 8-definition menu goes through IndexedInstrumentsBuilder; dense keys, uniqueness, completeness, inverse lookups, per-role asset/exchange resolution and order independence are checked against the definitions; all 255 subsets through EngineStateBuilder (asset/instrument/connectivity tables, account snapshots) and every subset x link assignment through ExecutionBuilder::build polled by hand.",
+          "One 8-definition menu (spot/perpetual/future/option, settlement-only and unit-only assets, shared asset names); name_internal unique per distinct instrument.",
+          "DESIGN.md §3 C11"),
+  "C13": ("exploration", "E-SEQ",
+          "exhaustive sweep of (connector, kind) x instrument flavour x instrument sets x synthesised venue payloads through the real mapper and transformers",
+          "For all 21 (connector, kind) arms of DynamicStreams::init and 4 instrument flavours: every ordered instrument set up to the tier's size from per-venue menus goes through the real WebSocketSubMapper::map, the connector's real transformer (ExchangeTransformer::init) and serde_json + transform for 2-3 payloads per market of the venue universe (subscribed or not); subscribed => exactly the payload's events with the subscribed key, the connector id and the payload's values; unsubscribed => unidentifiable error, never an event. Bitfinex runs its real subscription validator against a scripted venue on loopback.",
+          "Payload templates follow the venue formats quoted in the connectors' doc comments / test fixtures; name_exchange is the venue's spelling; Gate.io options payload modelled on futures; loopback TCP available.",
+          "DESIGN.md §3 C13"),
+  "C16": ("exploration", "E-SEQ",
+          "bounded-exhaustive sequences of closed positions / fill round-trips through TearSheetGenerator and the engine's trading summary",
+          "All sequences (<=4/<=5) of 24 closed-position symbols into TearSheetGenerator and (<=3/<=4) of 36 fill/balance symbols through EngineState::update_from_account over 3 instruments / 2 exchanges; after every prefix pnl, win rate and profit factor are recomputed in batch from the positions (documented conventions accepted), and every trading-summary entry must equal the sheet of a fresh generator fed only that instrument's/asset's history.",
+          "Period-scaled ratios (Sharpe, Sortino, Calmar, rate of return) are not compared (the statement does not fix the window).",
+          "DESIGN.md §3 C16"),
+  "C17": ("exploration", "E-SEQ",
+          "bounded-exhaustive value sequences through DataSetSummary against exact big-integer batch statistics",
+          "All sequences of length <=5 (quick) / <=7 (thorough) over a 9-value wide-magnitude alphabet and a 6-value near-equal alphabet; after every update count/range exact, sum/mean/variance/std-dev within a magnitude-scaled decimal tolerance of the exact batch value, variance >= 0, low <= mean <= high; every order of every multiset is in the enumeration.",
+          "Values avoid Decimal overflow; tolerance K*1e-24 (K = data scale).",
+          "DESIGN.md §3 C17"),
+  "C18": ("exploration", "E-SEQ",
+          "bounded-exhaustive timed value curves through the drawdown generators against a record-high decomposition",
+          "All curves of length <=5/7 (quick) / <=7/9 (thorough) over small value alphabets with two gap sizes, first value positive; each completed / current drawdown is compared with the running-maximum decomposition; Max and Mean generators against the drawdowns actually reported; the same through AssetState balances and TearSheetGenerator cumulative PnL.",
+          "Positive running maxima; end time of an in-progress drawdown not demanded.",
+          "DESIGN.md §3 C18"),
+  "C19": ("exploration", "E-SEQ",
+          "exhaustive sweep of reached engine states x 55 filters x command trees through the real Engine::process",
+          "For 2,040 (quick) / 40,176 (thorough) engine configurations over 4 instruments / 2 exchanges / 3 underlyings - reached by feeding events (order requests, snapshots, cancels, fills, prices) - every filter (none, all subsets of exchanges / instruments / underlyings, decoys) and every 2-command tree of CancelOrders / ClosePositions: delivered requests, in-flight marks and the bit-identity of everything outside the filter are compared with a definition-level scope predicate.",
+          "Links healthy; only side and quantity of close orders are demanded (as the statement says); command trees of length 2.",
+          "DESIGN.md §3 C19"),
+  "C20": ("exploration", "E-ENV",
+          "exhaustive sweep of datasets x pacings x strategy assignments through the real backtest()/run_backtests() on a paused single-thread runtime",
+          "Every dataset pattern of n<=3 (quick) / <=4 (thorough) events over 2 instruments x every pacing from a tie-free delay menu x every buy@b/sell@s or idle strategy x N in {1,2,3} concurrent members (ordered assignments) runs the real backtest machinery; completeness/order of the engine's market log, isolation as a differential oracle (member in batch == same member alone: fills, positions, balances, realised PnL) and the own-summary rule are checked.",
+          "OS-thread interleavings of a multi-thread runtime are not enumerated (auxiliary smoke run only, reported separately); timestamps excluded (HistoricalClock reads the wall clock); one mocked exchange.",
+          "DESIGN.md §3 C20"),
   "C09": ("model_checking", "E-BFS",
           "explicit-state BFS to fixpoint over the real EngineState::update_from_account / update_from_market",
           "All reachable (held value, greatest-delivered-timestamp monitor) states of balances, open-order details, top of book and last traded price are enumerated to fixpoint for several item groupings (two exchanges, two instruments); every transition delivers one timestamped message (or a full account snapshot, or a cancel-in-flight mark) to the real engine state; after every step each held item must carry the greatest timestamp delivered so far with a value delivered with it, and unnamed items must be bit-identical.",
